@@ -300,6 +300,13 @@ def run(prog, chk):
 
     text_field_rules(prog, chk, "R6", "R7")
     precision_rule(prog, chk, "R9")
+    column_advance_rule(prog, chk, "R11")
+
+    r10 = chk.rule("R10-surrogate-range-tests", "the writer's tests for surrogate pairs (where a folded line may be split) cut the code "
+                   "units exactly at the boundaries of the lead and trail ranges", floor=8)
+    from .. import unirange
+    if unirange.rule(prog, r10, units=("ciffile.c",)) < 8:
+        raise Broken("fewer than 8 surrogate range comparisons found in ciffile.c")
 
     r8 = chk.rule("R8-column-copies-fresh", "a local computed from the writer's last_column is not used after a call that writes "
                   "output (and so moves the column) unless it was recomputed or reset: line-length decisions look at the column "
@@ -307,6 +314,14 @@ def run(prog, chk):
     if memrules.stale_state_copies(prog, r8, "ciffile.c", "last_column",
                                    "the room left on the line is judged from a column the output has already moved on from") < 4:
         raise Broken("fewer than 4 locals computed from last_column in ciffile.c")
+
+
+def column_advance_rule(prog, chk, rid):
+    from .. import writerrules
+    rr = chk.rule(rid + "-column-advance-equals-emission", "after an emission whose count is kept, last_column advances by that count "
+                  "or by every character the format emits (delimiters included)", floor=3)
+    if writerrules.column_advance(prog, rr) < 3:
+        raise Broken("fewer than 3 column stores after a counted emission in ciffile.c")
 
 
 def precision_rule(prog, chk, rid):
